@@ -8,6 +8,15 @@ CHECKS = {
             "instance of each configuration and compose with prefix/suffix, index guard dominates indexing, long moves telescope. "
             "Functor-invariance of the result is the interchange law (cited, not re-proved).", TB, "DESIGN.md §4 C05"),
 }
+CHECKS["C01"] = ("census of scan-bypassing constructor calls over the resolved class model + per-site discharge by abstract evaluation on generic instances; CFG dominance for guards",
+    "Decides for all inputs that every construction bypassing the run-time scan (cat.Arrow(_scan=False), Diagram(layers=...)) satisfies the representation invariant RI1-RI4 "
+    "(boxes/offsets/layers agree, layers compose from dom to cod), that the two scanning constructors refuse ill-typed requests including out-of-range offsets, and that "
+    "composition is guarded. A new unscanned site that matches no discharge pattern makes the run analysis-broken (exit 2). Not decided: user subclasses, user-supplied functor images.",
+    TB, "DESIGN.md §4 C01")
+CHECKS["C04"] = ("abstract evaluation of the functor scan loop on a generic iteration (loop invariant), isinstance-dispatch analysis over the class hierarchy, shape rules modulo renaming",
+    "Decides from the source of the three Functor.__call__ methods, rigid.cups/caps and Ob/Ty adjoints: fold-by-then, the scan-splice loop invariant result.cod = F(scan), "
+    "dispatch order/totality and the structural mapping of swaps, cups, caps, daggers, sums, bubbles, the winding homomorphism, and the cups index chain on symbolic multi-wire types. "
+    "With C02's laws these give functoriality; user-supplied images are checked at run time by >> (not decided here).", TB, "DESIGN.md §4 C04")
 NOT_YET = "check not built yet in this round (static rules designed in DESIGN.md §4; will be claimed when the rule module lands)"
 NOT_APPLICABLE = {("C%02d" % i): NOT_YET for i in range(1, 21) if ("C%02d" % i) not in CHECKS}
 NOTES = ("All checks are static analyses of /repo/discopy's source (python -m sa.check <id>); exit 0 / 1 (VIOLATION) / 2 (ANALYSIS-ERROR). "
